@@ -168,6 +168,15 @@ def classify_pending(run, j, info):
     # (a) storage that _free_resources never gave back on inner levels (see C11): with exactly that amount
     #     missing -- and the scheduler's own account really showing it -- the request no longer fits
     multi, deep = led.inner_storage_residue()
+    adjust = {"retained": {}, "slots": {}}   # cumulative: several known mechanisms may act in one run
+
+    def fits_with_adjustments(ledger):
+        ledger.extra_retained, ledger.extra_slots = adjust["retained"], adjust["slots"]
+        try:
+            return _fits(ledger, run, info)
+        finally:
+            ledger.extra_retained, ledger.extra_slots = {}, {}
+
     for label, residue in (("C12/stacked-multi-location-inner-storage-leak", multi), ("C12/deep-stack-inner-storage-leak", deep)):
         if not residue:
             continue
@@ -175,12 +184,13 @@ def classify_pending(run, j, info):
             abs(totals(run.sch.hardware_locations[ln]).get(mp, 0.0) - led.reserved(ln)["st"].get(mp, 0.0) - led.retained[ln].get(mp, 0.0)
                 - multi.get(ln, {}).get(mp, 0.0) - deep.get(ln, {}).get(mp, 0.0)) < 1e-9
             for ln, d in residue.items() for mp in d if ln in run.sch.hardware_locations)
-        led.extra_retained = residue
-        try:
-            explained = not _fits(led, run, info)
-        finally:
-            led.extra_retained = {}
-        if explained and real_has_it:
+        if not real_has_it:
+            continue
+        for ln, d in residue.items():
+            for mp, v in d.items():
+                adjust["retained"].setdefault(ln, {})
+                adjust["retained"][ln][mp] = adjust["retained"][ln].get(mp, 0.0) + v
+        if not fits_with_adjustments(led):
             return label
     # (b) notify_status(ROLLBACK) removes the job from the allocation list of its TOP-LEVEL location only; the
     #     entry it leaves on a wrapped location without hardware keeps counting in _get_running_jobs: while the
@@ -209,15 +219,11 @@ def classify_pending(run, j, info):
             if stale and extra > 0:
                 held[ln] = extra
     if held:
-        led.extra_slots = held
-        try:
-            explained = not _fits(led, run, info)
-        finally:
-            led.extra_slots = {}
-        if explained:
+        adjust["slots"] = held
+        if not fits_with_adjustments(led):
             return "C12/rollback-keeps-inner-slot"
     # (c) k outer locations on one inner location: the inner requirement is validated (and charged) k times
-    if run.merged is not None and not _fits(run.merged, run, info):
+    if run.merged is not None and not fits_with_adjustments(run.merged):
         return "C12/shared-inner-requirement-merged"
     return None
 
